@@ -469,6 +469,25 @@ func stRead(w *TraceWriter, schema string, in []byte, seeds []int, note string) 
 		val2 = readValJSON(u, seeds)
 	}
 	w.Ev("st_read", "schema", schema, "note", note+"-reused", "in", projectBytes(in, seeds), "ok", ok2, "n", n2, "val", val2, "panic", pan2)
+	// and once more with the span-cache allocator on (strings take another allocation path)
+	v3 := fresh(schema)
+	ok3, n3, pan3 := false, 0, false
+	func() {
+		thrift.SetSpanCache(true)
+		defer thrift.SetSpanCache(false)
+		defer func() {
+			if p := recover(); p != nil {
+				pan3 = true
+			}
+		}()
+		k, err := v3.FastRead(in)
+		ok3, n3 = err == nil, k
+	}()
+	val3 := Raw("{}")
+	if ok3 && !pan3 {
+		val3 = readValJSON(v3, seeds)
+	}
+	w.Ev("st_read", "schema", schema, "note", note+"-spancache", "in", projectBytes(in, seeds), "ok", ok3, "n", n3, "val", val3, "panic", pan3)
 }
 
 func runStructCase(raw json.RawMessage, w *TraceWriter) {
@@ -632,8 +651,10 @@ func runNocopy(c *StructCase, w *TraceWriter, seeds []int) {
 	blen := v.BLength()
 	copybuf := make([]byte, blen+4)
 	copyret := v.FastWriteNocopy(copybuf, nil)
-	for _, hs := range [][2]int{{1, 0}, {0, 0}, {1, 1 + int(uint32(c.I)%97)}} {
-		has, spare := hs[0] == 1, hs[1]
+	// {writer?, spare capacity behind the destination's length, bytes of the destination BEHIND the struct}: the struct may
+	// be a nested field of a larger message, so positions count from the end of the caller's buffer, not of the struct
+	for _, hs := range [][3]int{{1, 0, 0}, {0, 0, 0}, {1, 1 + int(uint32(c.I)%97), 0}, {1, 0, 1}, {1, 3, 9}} {
+		has, spare, tailLen := hs[0] == 1, hs[1], hs[2]
 		func() {
 			defer func() {
 				if p := recover(); p != nil {
@@ -641,7 +662,7 @@ func runNocopy(c *StructCase, w *TraceWriter, seeds []int) {
 						"haswriter", has, "ndirect", -1, "nlarge", nlarge, "panic", fmt.Sprint(p))
 				}
 			}()
-			buf := make([]byte, blen, blen+spare)
+			buf := make([]byte, blen+tailLen, blen+tailLen+spare)
 			for i := range buf {
 				buf[i] = 0xA5
 			}
